@@ -1,4 +1,110 @@
-import KfacVerif.Model.Alg
+/-
+C04 — Kronecker factors are decayed running averages of batch second moments.
+(1) algebra over ℝ / arbitrary fields, all sizes: the batch second moment is symmetric PSD, the
+    symmetrisation is the identity on it, the recurrence preserves symmetry and PSD-ness, averaging
+    over ranks commutes with the recurrence, dividing by a loss scale s divides the moment by s²;
+(2) the executable rational `KV.Alg.cov/ema/updateFactor` (compared exactly with the code) are those
+    expressions; (3) what M-Precond/Spec do with the values (which the correspondence ties to the
+    code): identity on first use, mean of the accumulated micro-batches, average over ranks.
+Eval passes and non-update steps are frames (C05 `eval_noop`, `factors_frozen_off_multiples`).
+Property theorems only; helpers in Lemmas/FactorAlg.lean.
+-/
+import KfacVerif.Lemmas.FactorAlg
+import Mathlib.LinearAlgebra.Matrix.PosDef
+import Mathlib.Analysis.Matrix.PosDef
+import Mathlib.Data.Real.Basic
+import Mathlib.Algebra.BigOperators.Group.Finset.Basic
+import Mathlib.Tactic.Ring
+import Mathlib.Tactic.Linarith
+
 namespace KV.C04
-theorem placeholder : (1:Nat) = 1 := rfl
+open Matrix
+
+variable {r n : Type*} [Fintype r] [Fintype n] [DecidableEq n]
+
+-- `covM` (second moment of the rows of `a` : `(1/rows) • aᵀ a`) is defined in Lemmas/FactorAlg.lean
+
+theorem cov_symm (a : Matrix r n ℝ) : (covM a)ᵀ = covM a :=
+  covM_symm a
+
+/-- `(c + cᵀ)/2` is the identity on a symmetric matrix (the code's symmetrisation is a no-op) -/
+theorem symmetrise_id (c : Matrix n n ℝ) (h : cᵀ = c) : (1 / 2 : ℝ) • (c + cᵀ) = c :=
+  symm_id c h
+
+theorem cov_posSemidef (a : Matrix r n ℝ) : (covM a).PosSemidef :=
+  covM_psd a
+
+/-- the identity (first "previous" factor) is symmetric PSD -/
+theorem ident_posSemidef : (1 : Matrix n n ℝ).PosSemidef :=
+  Matrix.PosSemidef.one
+
+/-- **the recurrence preserves symmetric positive semi-definiteness** for any decay in [0, 1] -/
+theorem ema_posSemidef (α : ℝ) (h0 : 0 ≤ α) (h1 : α ≤ 1) (F M : Matrix n n ℝ) (hF : F.PosSemidef)
+    (hM : M.PosSemidef) : (α • F + (1 - α) • M).PosSemidef :=
+  ema_psd α h0 h1 F M hF hM
+
+-- `iterate` (the recurrence run from the identity over (decay, batch moment) pairs, head = most recent)
+-- is defined in Lemmas/FactorAlg.lean
+
+/-- hence **every factor of every history is symmetric PSD** (any decay schedule with values in [0,1]) -/
+theorem iterate_posSemidef (h : List (ℝ × Matrix n n ℝ))
+    (hd : ∀ p ∈ h, 0 ≤ p.1 ∧ p.1 ≤ 1 ∧ p.2.PosSemidef) : (iterate h).PosSemidef :=
+  iterate_psd h hd
+
+/-- closed form for a constant decay: `F_t = α^t • 1 + (1-α) Σ_{i<t} α^i M_i` (M_0 most recent) -/
+theorem iterate_const (α : ℝ) (Ms : List (Matrix n n ℝ)) :
+    iterate (Ms.map fun M => (α, M)) =
+      α ^ Ms.length • (1 : Matrix n n ℝ) + (1 - α) • ((List.zipIdx Ms).map fun p => α ^ p.2 • p.1).sum :=
+  iterate_const' α Ms
+
+/-- **average over ranks**: with the same previous factor on every rank, the all-reduced average of
+    the per-rank updates is the update with the mean of the per-rank batch moments -/
+theorem cross_rank_mean {W : Type*} [Fintype W] [Nonempty W] (α : ℝ) (F : Matrix n n ℝ) (M : W → Matrix n n ℝ) :
+    (1 / (Fintype.card W : ℝ)) • ∑ w, (α • F + (1 - α) • M w) =
+      α • F + (1 - α) • ((1 / (Fintype.card W : ℝ)) • ∑ w, M w) :=
+  cross_rank_mean' α F M
+
+/-- **loss scale**: the moment of `g / s` is `1/s²` times the moment of `g` -/
+theorem unscale (g : Matrix r n ℝ) (s : ℝ) (hs : s ≠ 0) : covM ((1 / s) • g) = (1 / s ^ 2) • covM g :=
+  unscale' g s hs
+
+/-! ### the executable formulas (compared exactly with kfac.layers.utils.get_cov etc.) -/
+
+-- `toM m k A i j = KV.Alg.ent A i j` is defined in Lemmas/FactorAlg.lean
+
+/-- `get_cov(a)` = `(1/rows) aᵀ a` (the symmetrisation changes nothing) -/
+theorem cov_bridge (rows k : ℕ) (a : KV.Alg.Mat) :
+    toM k k (KV.Alg.cov rows k a) = (1 / (rows : ℚ)) • ((toM rows k a)ᵀ * toM rows k a) :=
+  cov_bridge' rows k a
+
+theorem ema_bridge (k : ℕ) (α : ℚ) (F M : KV.Alg.Mat) :
+    toM k k (KV.Alg.ema k α F M) = α • toM k k F + (1 - α) • toM k k M :=
+  ema_bridge' k α F M
+
+/-- **accumulation**: one update folds in the MEAN of the accumulated micro-batch moments, starting
+    from the identity when there is no previous factor; with nothing accumulated it does nothing -/
+theorem update_mean (k : ℕ) (α : ℚ) (F : Option KV.Alg.Mat) (b : KV.Alg.Mat) (bs : List KV.Alg.Mat) :
+    KV.Alg.updateFactor k α F [] = F ∧
+    KV.Alg.updateFactor k α F [b] = some (KV.Alg.ema k α (F.getD (KV.Alg.ident k)) b) ∧
+    (bs ≠ [] → KV.Alg.updateFactor k α F (b :: bs) =
+      some (KV.Alg.ema k α (F.getD (KV.Alg.ident k))
+        (KV.Alg.smul k k (1 / ((bs.length + 1 : ℕ) : ℚ)) (bs.foldl (KV.Alg.add k k) b)))) :=
+  update_mean' k α F b bs
+
+theorem ident_bridge (k : ℕ) : toM k k (KV.Alg.ident k) = (1 : Matrix (Fin k) (Fin k) ℚ) :=
+  ident_bridge' k
+
+/-! ### what the state machine does with the values -/
+open KV.Precond KV.Spec in
+/-- the reference machine's factor update: per rank `ema α (previous or identity) (batch / count)`,
+    then the average over ranks (a world of one keeps the rank's own value) -/
+theorem spec_update_shape (c : SCfg) (s : SSt) (l : Nat) (α : Rat) (b : List V) (hl : l < s.layers.length)
+    (hb : (getS s l).aBatch = some b) (hw : c.world ≠ 1) :
+    let s' := Spec.updateReduce c s l true α
+    let fv := ((getS s l).aFactor).getD (.ident l true)
+    (getS s' l).aFactor = some (.ref s.defs.length) ∧
+    s'.defs = s.defs ++ [avgOf (b.map fun br => V.ema α fv (if (getS s l).aCount > 1 then V.divN br (getS s l).aCount else br))] ∧
+    (getS s' l).aBatch = none :=
+  spec_update_shape' c s l α b hl hb hw
+
 end KV.C04
